@@ -455,12 +455,25 @@ pub async fn settle() {
 struct FlagWaker {
     id: usize,
     ready: Arc<Mutex<Vec<usize>>>,
+    /// generation of the poll this waker was handed to
+    generation: u64,
+    /// generation of the latest poll of the task
+    current: Arc<std::sync::atomic::AtomicU64>,
+    stale: Arc<std::sync::atomic::AtomicU64>,
 }
 impl Wake for FlagWaker {
     fn wake(self: Arc<Self>) {
         self.wake_by_ref();
     }
     fn wake_by_ref(self: &Arc<Self>) {
+        use std::sync::atomic::Ordering::SeqCst;
+        // `Future::poll`: only the waker of the most recent poll has to be woken. Every poll hands out a new
+        // waker; a wake through one from an earlier poll is counted and otherwise ignored, which is the
+        // least a legal executor (or a future that moved to another task) may do.
+        if self.current.load(SeqCst) != self.generation {
+            self.stale.fetch_add(1, SeqCst);
+            return;
+        }
         let mut q = self.ready.lock().unwrap();
         if !q.contains(&self.id) {
             q.push(self.id);
@@ -474,6 +487,8 @@ pub struct Manual<'a, T> {
     tasks: Vec<Option<Pin<Box<dyn Future<Output = T> + 'a>>>>,
     results: Vec<Option<T>>,
     ready: Arc<Mutex<Vec<usize>>>,
+    generations: Vec<Arc<std::sync::atomic::AtomicU64>>,
+    stale: Arc<std::sync::atomic::AtomicU64>,
     pub polls: u64,
     pub trace: Vec<usize>,
 }
@@ -484,14 +499,21 @@ impl<'a, T> Manual<'a, T> {
             tasks: Vec::new(),
             results: Vec::new(),
             ready: Arc::new(Mutex::new(Vec::new())),
+            generations: Vec::new(),
+            stale: Arc::new(std::sync::atomic::AtomicU64::new(0)),
             polls: 0,
             trace: Vec::new(),
         }
+    }
+    /// Wakes that arrived through the waker of an earlier poll of a task that had been polled again since.
+    pub fn stale_wakes(&self) -> u64 {
+        self.stale.load(std::sync::atomic::Ordering::SeqCst)
     }
     pub fn spawn(&mut self, f: impl Future<Output = T> + 'a) -> usize {
         let id = self.tasks.len();
         self.tasks.push(Some(Box::pin(f)));
         self.results.push(None);
+        self.generations.push(Arc::new(std::sync::atomic::AtomicU64::new(0)));
         self.ready.lock().unwrap().push(id);
         id
     }
@@ -514,7 +536,14 @@ impl<'a, T> Manual<'a, T> {
     pub fn poll_task(&mut self, id: usize) -> bool {
         self.ready.lock().unwrap().retain(|x| *x != id);
         let Some(task) = self.tasks[id].as_mut() else { return true };
-        let waker = Waker::from(Arc::new(FlagWaker { id, ready: Arc::clone(&self.ready) }));
+        let generation = self.generations[id].fetch_add(1, std::sync::atomic::Ordering::SeqCst) + 1;
+        let waker = Waker::from(Arc::new(FlagWaker {
+            id,
+            ready: Arc::clone(&self.ready),
+            generation,
+            current: Arc::clone(&self.generations[id]),
+            stale: Arc::clone(&self.stale),
+        }));
         let mut cx = TaskContext::from_waker(&waker);
         self.polls += 1;
         self.trace.push(id);
